@@ -1656,7 +1656,8 @@ func (dsc *dataStoreCommand) lmove(srcKeyName, destKeyName string, srcLeft, dest
 	}
 
 	if srcList == destList && srcList.count == 1 {
-		// rotating a one-element list leaves it as it is
+		// rotating a one-element list leaves it as it is (still a write for watchers)
+		dsc.keyModifiedUnlocked(srcKeyName)
 		uk.elements = 1
 		output.data = respBulkString(srcList.head.element)
 		return
